@@ -171,6 +171,8 @@ class Comm:
     size = property(Get_size)
 
     def __getattr__(self, name):
+        if name.startswith('__') or name.startswith('_'):
+            raise AttributeError(name)      # numpy / copy / pickle protocol probes
         raise NotImplementedError('simmpi: Comm.%s is not modelled' % name)
 
     # ------------------------------------------------------------------ core
